@@ -230,7 +230,7 @@ def _exh_worker(args):
 
 
 def write_replay(cid, case, meta):
-    d = os.path.join(HERE, "replays", cid)
+    d = os.path.join(os.environ.get("VERIF_REPLAY_DIR") or os.path.join(HERE, "replays"), cid)
     os.makedirs(d, exist_ok=True)
     path = os.path.join(d, digest(case) + ".json")
     with open(path, "w") as f:
@@ -434,8 +434,9 @@ def main(argv=None):
         "wall_s": round(wall, 2),
         "violations": len(violations),
     }
-    os.makedirs(os.path.join(HERE, "evidence"), exist_ok=True)
-    with open(os.path.join(HERE, "evidence", f"{cid}.json"), "w") as f:
+    evdir = os.environ.get("VERIF_EVIDENCE_DIR") or os.path.join(HERE, "evidence")  # overridden only by tools/mutcheck.sh
+    os.makedirs(evdir, exist_ok=True)
+    with open(os.path.join(evdir, f"{cid}.json"), "w") as f:
         json.dump(ev, f, indent=1, default=str)
 
     for k in known:
